@@ -22,6 +22,13 @@ type Options struct {
 	Key   Class `json:"key"`
 	Value Class `json:"value"`
 	Repl  int32 `json:"repl"`
+	// how the slices handed to the library are laid out in memory (the values are the same):
+	// 0 each slice on its own; 1 the three Ranges (and the three Characters) are consecutive pieces
+	// of ONE backing array, each with capacity up to the array's end; 2 each slice on its own with
+	// spare capacity that holds an allow-everything range / other characters; 3 like 1, and the
+	// generator made the three Ranges equal so that all three are the SAME slice with spare capacity
+	// (one shared table, as in Ranges: tally.AlphanumericRange given three times)
+	Share int `json:"share,omitempty"`
 }
 
 func (c Class) Tally() tally.ValidCharacters {
@@ -47,7 +54,33 @@ func (c Class) Model() model.San {
 }
 
 func (o Options) Tally() tally.SanitizeOptions {
-	return tally.SanitizeOptions{NameCharacters: o.Name.Tally(), KeyCharacters: o.Key.Tally(), ValueCharacters: o.Value.Tally(), ReplacementCharacter: rune(o.Repl)}
+	so := tally.SanitizeOptions{NameCharacters: o.Name.Tally(), KeyCharacters: o.Key.Tally(), ValueCharacters: o.Value.Tally(), ReplacementCharacter: rune(o.Repl)}
+	cls := []*tally.ValidCharacters{&so.NameCharacters, &so.KeyCharacters, &so.ValueCharacters}
+	switch o.Share {
+	case 1, 3:
+		ranges := make([]tally.SanitizeRange, 0, 64)
+		chars := make([]rune, 0, 64)
+		for i, c := range cls {
+			if o.Share == 3 && i > 0 {
+				c.Ranges = cls[0].Ranges
+			} else {
+				at := len(ranges)
+				ranges = append(ranges, c.Ranges...)
+				c.Ranges = ranges[at:len(ranges)]
+			}
+			at := len(chars)
+			chars = append(chars, c.Characters...)
+			c.Characters = chars[at:len(chars)]
+		}
+	case 2:
+		for _, c := range cls {
+			r := append(append(make([]tally.SanitizeRange, 0, len(c.Ranges)+4), c.Ranges...), tally.SanitizeRange{0, 0x10FFFF}, tally.SanitizeRange{0, 0x10FFFF})
+			c.Ranges = r[:len(c.Ranges)]
+			ch := append(append(make([]rune, 0, len(c.Characters)+4), c.Characters...), 'a', '_', 'é')
+			c.Characters = ch[:len(c.Characters)]
+		}
+	}
+	return so
 }
 
 func (o Options) Model() *model.Opts {
@@ -83,6 +116,10 @@ func GenOptions() *rapid.Generator[Options] {
 	return rapid.Custom(func(t *rapid.T) Options {
 		o := Options{Name: GenClass().Draw(t, "name"), Key: GenClass().Draw(t, "key"), Value: GenClass().Draw(t, "value")}
 		o.Repl = rapid.SampledFrom([]int32{'_', '_', '_', '-', '?', 'é', '日', 0x1F600, 'a', ' ', 0xFFFD}).Draw(t, "repl")
+		o.Share = rapid.SampledFrom([]int{0, 0, 0, 1, 2, 3}).Draw(t, "share")
+		if o.Share == 3 {
+			o.Key.Ranges, o.Value.Ranges = o.Name.Ranges, o.Name.Ranges
+		}
 		return o
 	})
 }
